@@ -6,6 +6,8 @@ import ExponaxModel.Proofs.Conservation
 import ExponaxModel.Proofs.InvariantsVort
 import ExponaxModel.Proofs.InvariantsRot3dLeray
 import ExponaxModel.Proofs.LaminarEquilibriaExamples
+import ExponaxModel.Proofs.SmallGaps3MeanSteps
+import ExponaxModel.Proofs.SmallGaps3MeanCounter
 /-
 C09 — conserved quantities and equilibria survive the discretisation exactly.
 Mean: zero mean-mode output of the conservative / Cahn–Hilliard / gradient-norm(zero-fix) terms in every dimension and
@@ -439,6 +441,82 @@ theorem C09_stored_weights_telescope :
       Gen.Etdrk.E4_coef_4 dt lam M r + 4 * Gen.Etdrk.E4_coef_5 dt lam M r + Gen.Etdrk.E4_coef_6 dt lam M r =
         Gen.Etdrk.E1_coef_1 dt lam M r :=
   @Exponax.EquilibriaStored.stored_E4_sum
+
+
+
+/-! ### mean of the 3-D velocity stepper: the mean mode of the rotational term is mask(0)·Σ_x u_i (∇·u) — zero exactly on
+divergence-free spectra (Nyquist-free retained band), so every ETDRK order and rollout of the velocity stepper keeps the mean of
+each channel on divergence-free states; for a general (not divergence-free) spectrum it is NOT zero (counterexample) -/
+
+open Exponax.SmallGaps3 in
+theorem C09_velocity_term_mean_is_u_div_u :
+    ∀ (c : Nonlin.Cfg ℂ),
+      c.D = 3 →
+        0 < c.N →
+          ∀ (K : ℤ),
+            MaskIn c K →
+              2 * K < ↑c.N →
+                ∀ (s : ℝ),
+                  c.s = ↑s →
+                    ∀ (uh : Nonlin.MC ℂ),
+                      ∀ i < 3,
+                        Nonlin.at2 (Nonlin.projected3d c none uh) i 0 =
+                          Nonlin.mask c 0 * ∑ x ∈ Finset.range (c.N ^ c.D), Conserve.velGrid c uh i x * divGrid c uh x :=
+  @Exponax.SmallGaps3.projected3d_mean_eq_div
+
+open Exponax.SmallGaps3 in
+theorem C09_velocity_term_zero_mean_on_divfree :
+    ∀ (c : Nonlin.Cfg ℂ),
+      c.D = 3 →
+        0 < c.N →
+          ∀ (K : ℤ),
+            MaskIn c K →
+              2 * K < ↑c.N →
+                ∀ (s : ℝ),
+                  c.s = ↑s →
+                    ∀ (uh : Nonlin.MC ℂ),
+                      (∀ h < Nonlin.modes c,
+                          Nonlin.mask c h = 1 →
+                            Nonlin.deriv c 0 h * Nonlin.at2 uh 0 h + Nonlin.deriv c 1 h * Nonlin.at2 uh 1 h +
+                                Nonlin.deriv c 2 h * Nonlin.at2 uh 2 h =
+                              0) →
+                        ∀ (i : ℕ), Nonlin.at2 (Nonlin.projected3d c none uh) i 0 = 0 :=
+  @Exponax.SmallGaps3.projected3d_mean_zero
+
+open Exponax.SmallGaps3 in
+theorem C09_mean_velocity_stepper :
+    ∀ (c : Nonlin.Cfg ℂ),
+      c.D = 3 →
+        0 < c.N →
+          ∀ (K : ℤ),
+            MaskIn c K →
+              2 * K < ↑c.N →
+                ∀ (s : ℝ),
+                  c.s = ↑s →
+                    s ≠ 0 →
+                      ∀ (inj : Option (ℕ × ℂ)),
+                        (∀ (m : ℕ) (gam : ℂ), inj = some (m, gam) → 0 < m) →
+                          ∀ (e eh a1 a2 a3 a4 a5 a6 : ℕ → ℂ),
+                            e 0 = 1 →
+                              ∀ (n : ℕ) (U : ℕ → ℕ → ℂ),
+                                DivFree c U →
+                                  ∀ (d : ℕ),
+                                    have b := fun x h x_1 ↦ x h;
+                                    have N := SmallGaps.liftModeFirst c 3 (Nonlin.projected3d c inj);
+                                    (Gen.Etdrk.E0step (b e))^[n] U 0 d = U 0 d ∧
+                                      (Gen.Etdrk.E1step (b e) (b a1) N)^[n] U 0 d = U 0 d ∧
+                                        (Gen.Etdrk.E2step (b e) (b a1) (b a2) N)^[n] U 0 d = U 0 d ∧
+                                          (Gen.Etdrk.E3step (b e) (b eh) (b a1) (b a2) (b a3) (b a4) (b a5) N)^[n] U 0 d =
+                                              U 0 d ∧
+                                            (Gen.Etdrk.E4step (b e) (b eh) (b a1) (b a2) (b a3) (b a4) (b a5) (b a6) N)^[n]
+                                                U 0 d =
+                                              U 0 d :=
+  @Exponax.SmallGaps3.velocity_rollout_mean
+
+open Exponax.SmallGaps3 in
+theorem C09_velocity_mean_needs_divfree :
+    Nonlin.at2 (Nonlin.projected3d c8 none uhC) 0 0 ≠ 0 :=
+  @Exponax.SmallGaps3.projected3d_mean_counter
 
 
 end Exponax
